@@ -754,6 +754,24 @@ func runProp(t *testing.T, d propDef) {
 	rapid.Check(t, func(rt *rapid.T) {
 		c := d.gen(rt)
 		f := d.run(h, child(), c)
+
+		// A watchdog expiry is only believed when it reproduces in a fresh child
+		// (with the long limit): a stall of the machine is not a verdict, and must
+		// not end the run either. Unreproduced ones are counted.
+		if f != nil && strings.HasPrefix(f.Clause, "hang") && !d.noChild {
+			fresh := h.FreshChild()
+			f2 := d.run(h, fresh, c)
+			fresh.Quit()
+
+			if f2 == nil || !strings.HasPrefix(f2.Clause, "hang") {
+				h.mu.Lock()
+				h.Discarded++
+				h.Classes["unreproduced-watchdog-expiry"]++
+				h.mu.Unlock()
+
+				f = f2
+			}
+		}
 		// classified after the run: some rules depend on what the session reached
 		h.count(c, d.classify(h, c))
 		h.check(rt, c, f)
